@@ -364,6 +364,11 @@ package desync
 //# C01, worker: a segment copied or cloned from a seed is recorded as written only after every chunk of it
 //# was read back from the target and its digest compared with the chunk's ID; a mismatch ends the worker
 //# with an error unless the caller asked for regeneration, in which case the chunk goes through writeChunk
+//# jobs carry the planner's segments (first <= last < number of chunks of the index being assembled: SeedSequencer.Next/Plan);
+//# the hand-over through the channel is not tracked, the fact is assumed where the self-seed needs it
+//@   lit 1: assume@before:add 0 <= job.segment.first && job.segment.first <= job.segment.last && job.segment.last < len(ss.index.Chunks)
+//@   lit 1: requires held(ss.mu) == 0
+//@   lit 1: loop 1: invariant held(ss.mu) == 0
 //@   lit 1: ghost@loop1.head $regen = false
 //@   lit 1: ghost@after:writeChunk $regen = true
 //@   lit 1: loop 2: invariant @C01 $regen || !segOK(job.segment) || chunksMatch(f, job.segment.index.Chunks[job.segment.first : job.segment.first + $i])
@@ -1853,3 +1858,19 @@ package desync
 //@   modifies $fv
 //@   oncall copy: requires $arg2 == s.chunks[0].Start && $arg3 == length && $arg4 == offset
 //@   oncall clone: requires $arg2 == s.chunks[0].Start && $arg3 == length && $arg4 == offset && $arg5 == blocksize
+
+// ---------------------------------------------------------------------------------------------
+// C01: the self-seed. Under its lock: the write pointer is within the index and only grows, every
+// cached out-of-order segment ends within the index after its start.
+
+//@ guard selfSeed: written, cache, pos by mu inv 0 <= self.written && self.written <= len(self.index.Chunks) && \
+//@     (forall k int :: has(self.cache, k) ==> k < self.cache[k] && self.cache[k] <= len(self.index.Chunks)) \
+//@     rely self.written >= old(self.written)
+
+//@ func (s *selfSeed) add
+//@   prop C01
+//@   requires 0 <= segment.first && segment.first <= segment.last && segment.last < len(s.index.Chunks) && held(s.mu) == 0
+//@   ensures held(s.mu) == 0
+//@   ghost@after:Lock $snap = s.written
+//@   loop 1: invariant held(s.mu) == 1 && s.written >= $snap && 0 <= s.written && s.written <= len(s.index.Chunks) && (forall k int :: has(s.cache, k) ==> k < s.cache[k] && s.cache[k] <= len(s.index.Chunks))
+//@   loop 2: invariant held(s.mu) == 1 && s.written >= $snap && s.written <= i && i <= next && next <= len(s.index.Chunks) && 0 <= s.written && (forall k int :: has(s.cache, k) ==> k < s.cache[k] && s.cache[k] <= len(s.index.Chunks))
